@@ -1,6 +1,8 @@
 import JediModel.Proto
 import JediModel.Model.Refs
 import JediModel.Lemmas.RefsSound
+import JediModel.Model.KwBind
+import JediModel.Gen.C05
 open Lean Proto JediModel.Scopes JediModel.Refs
 
 def parseKind : Nat → Kind
@@ -31,6 +33,22 @@ def handle (j : Json) : Json :=
         match p.occs[i]? with
         | some o => jbool (nameOkB p o.name)
         | none => jbool false))]
+  | "kwgoto" =>
+    -- which parameters (by index) the keyword `k` of a call is tied to, with the kind filter read
+    -- from names.py, and which one Python binds
+    let sig : List JediModel.KwBind.Param := (arr j "sig").map fun p =>
+      match asArr p with
+      | [n, k] => { name := asNat n, kind := asNat k }
+      | _ => { name := 0, kind := 0 }
+    let k := nat j "k"
+    let idx (f : List JediModel.KwBind.Param → List JediModel.KwBind.Param) : List Nat :=
+      (List.range sig.length).filter fun i =>
+        match sig[i]? with
+        | some p => !(f [p]).isEmpty
+        | none => false
+    jobj [
+      ("goto", jarr ((idx fun l => JediModel.KwBind.gotoKeyword JediModel.Gen.C05.keywordGotoKinds l k).map jnat)),
+      ("binds", jarr ((idx fun l => JediModel.KwBind.pyBinds l k).map jnat))]
   | op => jobj [("error", jstr ("unknown op " ++ op))]
 
 def main : IO Unit := Proto.run handle
